@@ -679,6 +679,171 @@ fn wb_direct(report: &mut Report, seed: u64, rid: u64, dir: &str) {
     let _ = std::fs::remove_file(&path);
 }
 
+/// One key's writes fail for good (an I/O error on its payload only, not a space problem); everything else on the
+/// device works. Deletes and overwrites of durable keys on the OTHER shards must still be retired by the background
+/// passes - nobody calls flush. Judged logically: the retirement queue must empty and the deleted keys must be gone
+/// from the durable image; "still pending after 12 s, not shrinking for 6 s, on a responsive machine" = stuck.
+fn wb_poison(report: &mut Report, seed: u64, rid: u64, dir: &str) {
+    let mut rng = Rng::derive(seed, rid, 0x9015);
+    let cpus = *rng.pick(&[4usize, 6, 8, 12, 16]);
+    let mut cfg = Cfg::disk(16 + 4096);
+    cfg.cpus = cpus;
+    cfg.cache = false;
+    cfg.sync_io = rng.chance(1, 2);
+    let path = format!("{dir}/wbp-{rid}.feox");
+    let _ = std::fs::remove_file(&path);
+    storeutil::ensure_device(&cfg, &path);
+    let base = vec![0u8; cfg.blocks as usize * 4096];
+    let mon = hub().watch(&path);
+    let store = match storeutil::open(&cfg, Some(&path)) {
+        Ok(s) => Arc::new(s),
+        Err(e) => {
+            report.inconclusive.push(format!("wb_poison: open failed: {e:?}"));
+            return;
+        }
+    };
+    let shards = store.verif_pending().map(|p| p.shard_counts.len()).unwrap_or(0);
+    if shards < 2 {
+        return;
+    }
+    let replay = json!({"engine": "live", "mode": "wb", "poisoned_key": true, "seed": seed, "run": rid, "cpus": cpus, "shards": shards, "config": cfg.label()});
+    let settle = |want_retirements_zero: bool, allow_shard0: bool| -> Result<(), Option<String>> {
+        let t0 = Instant::now();
+        let mut best = usize::MAX;
+        let mut best_at = Instant::now();
+        let mut worst_oversleep = 0u128;
+        loop {
+            let p = store.verif_pending().unwrap();
+            let others: usize = p.shard_queued.iter().enumerate().filter(|(i, _)| !(allow_shard0 && *i == 0)).map(|(_, q)| *q).sum();
+            let pending = others + if want_retirements_zero { p.retirements } else { 0 };
+            if pending == 0 {
+                return Ok(());
+            }
+            if pending < best {
+                best = pending;
+                best_at = Instant::now();
+            }
+            if t0.elapsed() > Duration::from_secs(12) && best_at.elapsed() > Duration::from_secs(6) {
+                if worst_oversleep > 400 {
+                    return Err(None);
+                }
+                return Err(Some(format!("queued per shard {:?}, retirements {} (not shrinking for {} s)", p.shard_queued, p.retirements, best_at.elapsed().as_secs())));
+            }
+            if t0.elapsed() > Duration::from_secs(45) {
+                return Err(None);
+            }
+            let s0 = Instant::now();
+            std::thread::sleep(Duration::from_millis(10));
+            worst_oversleep = worst_oversleep.max(s0.elapsed().as_millis().saturating_sub(10));
+        }
+    };
+    // durable keys on every shard
+    let n = 48 * shards;
+    let keys: Vec<Vec<u8>> = (0..n).map(|i| format!("wp-{i:05}").into_bytes()).collect();
+    // the shard of a key is learnt from which shard counter grows when it is inserted (None when a background drain
+    // blurred the picture): only keys KNOWN to live on other shards than the failing one are judged
+    let mut shard_of: Vec<Option<usize>> = Vec::with_capacity(n);
+    for (i, k) in keys.iter().enumerate() {
+        let before = store.verif_pending().unwrap().shard_counts.clone();
+        let _ = store.insert(k, &values::make(Tag { key_id: kid(k), writer: 0, seq: i as u32 }, 100 + (i % 5) * 700));
+        let after = store.verif_pending().unwrap().shard_counts.clone();
+        let grown: Vec<usize> = (0..shards).filter(|s| after[*s] > before[*s]).collect();
+        shard_of.push(if grown.len() == 1 { Some(grown[0]) } else { None });
+    }
+    if settle(true, false).is_err() {
+        report.inconclusive.push("wb_poison: initial fill did not drain".into());
+        return;
+    }
+    // a key on shard 0 (its background pass is the one that will keep failing)
+    let mut poison: Option<Vec<u8>> = None;
+    for i in 0..200 {
+        let k = format!("poison-{i}").into_bytes();
+        let before = store.verif_pending().unwrap().shard_counts.clone();
+        let _ = store.insert(&k, b"small-for-now-small-for-now");
+        let after = store.verif_pending().unwrap().shard_counts.clone();
+        let grown: Vec<usize> = (0..shards).filter(|s| after[*s] > before[*s]).collect();
+        let _ = settle(true, false);
+        if grown == vec![0] {
+            poison = Some(k);
+            break;
+        }
+    }
+    let Some(poison) = poison else {
+        report.inconclusive.push("wb_poison: found no key on shard 0".into());
+        return;
+    };
+    mon.set_plan(FaultPlan { data_min_len: Some((8192, Fault::Before)), uring: store.verif_uses_uring(), ..Default::default() });
+    let _ = store.insert(&poison, &values::make(Tag { key_id: kid(&poison), writer: 1, seq: 1 }, 9000));
+    // meanwhile: deletes and overwrites of durable keys everywhere
+    let mut deleted: Vec<Vec<u8>> = Vec::new();
+    for (i, k) in keys.iter().enumerate() {
+        match i % 3 {
+            0 => {
+                if store.delete(k).is_ok() && matches!(shard_of[i], Some(sh) if sh != 0) {
+                    deleted.push(k.clone());
+                }
+            }
+            1 => {
+                let _ = store.insert(k, &values::make(Tag { key_id: kid(k), writer: 2, seq: i as u32 }, 150));
+            }
+            _ => {}
+        }
+        if i % 64 == 63 {
+            std::thread::sleep(Duration::from_millis(rng.range(0, 30)));
+        }
+    }
+    report.evaluations += 1;
+    report.count("poisoned_key_runs", 1);
+    report.nontrivial.insert(fnv_mix(fnv_mix(0x9015, shards as u64), rid));
+    // keys that share the failing key's shard are held back with it (a batch fails as a whole) - that is the
+    // device's doing, not the store's. The deletes on the OTHER shards must reach the device in the background:
+    // their records must disappear from the durable image
+    report.count("poisoned_key_judged_deletes", deleted.len() as u64);
+    let t0 = Instant::now();
+    let mut worst_oversleep = 0u128;
+    let mut verdict: Option<Vec<String>> = None;
+    loop {
+        let events = mon.events();
+        let durable = crashimg::build(&base, &events, &Recipe { cut: events.len(), keep: vec![], tear: None });
+        match indep::scan(&durable, None, false) {
+            Ok(sc) => {
+                let back: Vec<String> = deleted.iter().filter(|k| sc.records.contains_key(*k)).take(4).map(|k| hex(k)).collect();
+                if back.is_empty() {
+                    break;
+                }
+                if t0.elapsed() > Duration::from_secs(12) {
+                    verdict = Some(back);
+                    break;
+                }
+            }
+            Err(_) => {} // a batch in flight; look again
+        }
+        let s0 = Instant::now();
+        std::thread::sleep(Duration::from_millis(250));
+        worst_oversleep = worst_oversleep.max(s0.elapsed().as_millis().saturating_sub(250));
+        if t0.elapsed() > Duration::from_secs(30) {
+            report.inconclusive.push(format!("wb_poison run {rid}: the durable image could not be judged within 30 s"));
+            break;
+        }
+    }
+    report.count("poisoned_key_faults_consumed", mon.consumed().len() as u64);
+    report.max("poisoned_key_max_settle_ms", t0.elapsed().as_millis() as u64);
+    if let Some(back) = verdict {
+        if worst_oversleep > 400 {
+            report.inconclusive.push(format!("wb_poison run {rid}: unresponsive machine"));
+        } else {
+            let p = store.verif_pending().unwrap();
+            report.violation("wb:retirements-starved-by-a-failing-key", format!("one key on shard 0 cannot be written (I/O error on its payload only, every other write works); deletes of durable keys known to live on OTHER shards were accepted 12 s ago, nobody called flush, and their records {back:?} are still valid in the durable image (queued per shard {:?}, retirements {})", p.shard_queued, p.retirements), replay.clone());
+        }
+    }
+    let _ = settle;
+    mon.clear_plan();
+    let _ = store.flush();
+    hub().unwatch(&mon);
+    drop(store);
+    let _ = std::fs::remove_file(&path);
+}
+
 pub fn run_wb(args: &Args, report: &mut Report) {
     let shard = args.num("shard", 0);
     let shards = args.num("shards", 1).max(1);
@@ -691,6 +856,9 @@ pub fn run_wb(args: &Args, report: &mut Report) {
         wb_run(report, args.seed, r, &scratch.0);
         if r % 2 == 0 {
             wb_direct(report, args.seed, r / 2, &scratch.0);
+        }
+        if r % 4 == 1 {
+            wb_poison(report, args.seed, r / 4, &scratch.0);
         }
         if report.violations.len() >= 3 {
             break;
